@@ -60,7 +60,7 @@ fn('dsplib::FirFilter<double>::process', D, serves=['C07', 'C06', 'C05'], extra_
             # (with lemma DOT_EXT this is the sum over X itself)
             ('defining_sum', 'exists_w(lambda A: And(forall(lambda j: Implies(And(0 <= j, j < nd + s.len), A[j] == X[j])), '
                              'forall(lambda i: Implies(And(0 <= i, i < s.len), result[i] == DOT(A, i, 1, rev(_h, _h.len), _h.len)))), data(x))')],
-   prop_of={'history': ['C06'], 'defining_sum': ['C07', 'C06'], 'length': ['C07']})
+   prop_of={'history': ['C06', 'C07'], 'defining_sum': ['C07', 'C06'], 'length': ['C07']})
 
 fn('dsplib::FirFilter<dsplib::cmplx_t>::process', D, serves=['C06', 'C05'], extra_env=ENV, assigns=['this._d'],
    requires=[('invariant', 'And(_h.len >= 2, _d.len == _h.len - 1)'), ('size', '_d.len + s.len <= INT_MAX')],
